@@ -554,6 +554,23 @@ func (s *Sim) Quiesce() {
 	if s.W.Cfg.SaneOnly {
 		s.clearHolds(r)
 	}
+	if nr := s.W.Extra["neverReady"]; nr != "" {
+		// the premise of convergence is that the pods of the live template become Ready: the user
+		// moves on from the broken template, and a canary of a good one is validated, not failed
+		for _, def := range s.W.EDS {
+			if e := s.Store.GetEDS(def.NS, def.Name); e != nil && letterOfTpl(&e.Spec.Template) == nr {
+				for _, l := range sortedKeys(def.Templates) {
+					if l != nr {
+						s.userSetTemplate(def.NS, def.Name, l)
+						break
+					}
+				}
+			}
+		}
+		if s.W.Cfg.EndCanary == "fail" {
+			s.W.Cfg.EndCanary = "validate"
+		}
+	}
 	for i := 1; i <= rounds; i++ {
 		s.step++
 		if s.W.Cfg.EndCanary != "" {
